@@ -247,7 +247,7 @@ func cmdCheck(argv []string) {
 			}
 			defer sol.Close()
 			m := &Machine{prog: prog, tt: NewTermTable(), sol: sol, budget: lim.Budget,
-				genCache: map[*ssa.Function]bool{}, allowInit: allowInit, funcsUsed: map[string]int{}, rtErrType: rtErr}
+				genCache: map[*ssa.Function]bool{}, allowInit: allowInit, funcsUsed: map[*ssa.Function]int{}, rtErrType: rtErr}
 			w := &Worker{m: m, lim: lim}
 			for {
 				mu.Lock()
@@ -261,7 +261,7 @@ func cmdCheck(argv []string) {
 			}
 			mu.Lock()
 			for k, v := range m.funcsUsed {
-				output.FuncsEncoded[k] += v
+				output.FuncsEncoded[k.String()] += v
 			}
 			output.TotalQueries += sol.Queries
 			output.TotalSolverS += sol.Time.Seconds()
